@@ -448,7 +448,10 @@ outer:
 					return utils.ErrEmptyKey
 				}
 				est := int64(kv.EstimateEncodeSize(entry))
-				if used+est > avail {
+				// An entry that does not fit into an EMPTY memtable will not fit into the next
+				// one either: rotating would go on for ever (and block every writer and Close).
+				// Let it in by itself; the memtable is rotated by the next write.
+				if used+est > avail && !(i == start && atomic.LoadInt64(&mt.walSize) == 0) {
 					if i == start {
 						lsm.lock.RUnlock()
 						var old *memTable
